@@ -90,10 +90,32 @@ def _formula(e: ast.AST, atoms: Atoms):
             parts.append(_compare(left, op, right, atoms))
             left = right
         return And(*parts) if len(parts) > 1 else parts[0]
+    if _is_count(e):  # truthiness of a count: `if x.size:`  ==  not (x.size == 0)
+        return Not(Atom(atoms.key(ast.Compare(left=e, ops=[ast.Eq()], comparators=[ast.Constant(value=0)]))))
     return Atom(atoms.key(e))
 
 
+def _is_count(e: ast.AST) -> bool:
+    """A non-negative integer quantity: x.size, x.shape[k], len(x), x.ndim, x.nbytes."""
+    if isinstance(e, ast.Attribute) and e.attr in ("size", "ndim", "nbytes"):
+        return True
+    if isinstance(e, ast.Subscript) and isinstance(e.value, ast.Attribute) and e.value.attr == "shape":
+        return True
+    return isinstance(e, ast.Call) and isinstance(e.func, ast.Name) and e.func.id == "len"
+
+
 def _compare(left, op, right, atoms: Atoms):
+    # counts are non-negative integers:  n > 0, n >= 1, n != 0  ==  not (n == 0) ;  n < 1, n <= 0  ==  (n == 0)
+    for a, b, flip in ((left, right, False), (right, left, True)):
+        if _is_count(a) and isinstance(b, ast.Constant) and isinstance(b.value, int) and not isinstance(b.value, bool):
+            t0 = type(op)
+            if flip:
+                t0 = {ast.Lt: ast.Gt, ast.Gt: ast.Lt, ast.LtE: ast.GtE, ast.GtE: ast.LtE}.get(t0, t0)
+            zero = Atom(atoms.key(ast.Compare(left=a, ops=[ast.Eq()], comparators=[ast.Constant(value=0)])))
+            if (t0, b.value) in ((ast.Gt, 0), (ast.GtE, 1), (ast.NotEq, 0)):
+                return Not(zero)
+            if (t0, b.value) in ((ast.Lt, 1), (ast.LtE, 0), (ast.Eq, 0)):
+                return zero
     neg = False
     t = type(op)
     if t in _NEG:
